@@ -76,6 +76,15 @@ func lockContenderMain() {
 	spawnPct, _ := strconv.Atoi(os.Getenv("VERIF_C28_SPAWN_PCT"))
 	orphanMark := os.Getenv("VERIF_C28_ORPHAN_MARK")
 	sleepPath, _ := exec.LookPath("sleep")
+	mode := os.Getenv("VERIF_C28_MODE")
+	// idle contenders: after their f-th refusal they stay alive for 0.5-1.5 s without touching the
+	// lock (a process that gave up must not influence the lock any more)
+	idleAt := map[int]bool{}
+	if os.Getenv("VERIF_C28_IDLE") == "1" {
+		idleAt[1+rng.Intn(15)] = true
+		idleAt[20+rng.Intn(120)] = true
+	}
+	totalFails := 0
 	acquired := 0
 	consecutiveFails := 0
 	for n := 0; n < maxTry && acquired < wantAcq; n++ {
@@ -83,6 +92,20 @@ func lockContenderMain() {
 		lock, err := daemon.AcquireLock()
 		if err != nil {
 			rec(monoNow(), "FAIL", n, strings.ReplaceAll(err.Error(), " ", "_"))
+			totalFails++
+			if mode == "once-idle" {
+				// gives up after one refusal and stays alive without touching the lock again
+				rec(monoNow(), "IDLE", n, "4000")
+				time.Sleep(4 * time.Second)
+				rec(monoNow(), "IDLEEND", n, "-")
+				break
+			}
+			if idleAt[totalFails] {
+				ms := 500 + rng.Intn(1000)
+				rec(monoNow(), "IDLE", n, strconv.Itoa(ms))
+				time.Sleep(time.Duration(ms) * time.Millisecond)
+				rec(monoNow(), "IDLEEND", n, "-")
+			}
 			// back off while the lock stays taken, so that a long hold does not burn the attempt budget
 			consecutiveFails++
 			if consecutiveFails > 8 {
@@ -99,6 +122,14 @@ func lockContenderMain() {
 		rec(monoNow(), "ACQ", n, "-")
 		acquired++
 		cell.WriteAt(mine, 0)
+		if mode == "hold" {
+			// holds until the monitor kills it, or for the given time
+			if ms, err := strconv.Atoi(os.Getenv("VERIF_C28_HOLD_MS")); err == nil && ms > 0 {
+				time.Sleep(time.Duration(ms) * time.Millisecond)
+			} else {
+				time.Sleep(150 * time.Second)
+			}
+		}
 		if sleepPath != "" && spawnPct > 0 && rng.Intn(100) < spawnPct {
 			// Like the daemon starting an ssh/docker transport while it holds the lock: a
 			// long-lived subprocess started through os/exec with its default descriptor
@@ -147,6 +178,7 @@ type contender struct {
 	KillSent int64 // 0 if never killed; stamped BEFORE kill(2)
 	Reaped   int64 // stamped AFTER wait returned
 	Done     bool
+	Role     string // "" | "idler" | "epilogue-holder" | "epilogue-fresh"
 }
 
 type interval struct {
@@ -198,17 +230,30 @@ func runRound(r *vk.Run, idx, K, wantAcq, maxTry, kills int, rng *rand.Rand, hb 
 	defer func() { killRoundOrphans(r, dir) }()
 	var mu sync.Mutex
 	var wg sync.WaitGroup
-	type live struct {
-		c   *contender
-		cmd *exec.Cmd
-	}
 	alive := map[int]*live{}
-	spawn := func() {
+	var spawnRole func(role string, acq, tries int) *live
+	spawn := func() { spawnRole("", wantAcq, maxTry) }
+	spawnRole = func(role string, acq, tries int) *live {
 		mu.Lock()
 		id := len(round.Contenders)
-		c := &contender{ID: id}
+		c := &contender{ID: id, Role: role}
+		if role == "" && id%2 == 1 {
+			c.Role = "idler"
+		}
 		round.Contenders = append(round.Contenders, c)
 		mu.Unlock()
+		wantAcq, maxTry := acq, tries
+		roleEnvs := []string{}
+		switch c.Role {
+		case "idler":
+			roleEnvs = append(roleEnvs, "VERIF_C28_IDLE=1")
+		case "epilogue-holder":
+			roleEnvs = append(roleEnvs, "VERIF_C28_MODE=hold")
+		case "epilogue-holder-releasing":
+			roleEnvs = append(roleEnvs, "VERIF_C28_MODE=hold", "VERIF_C28_HOLD_MS=1500")
+		case "epilogue-idler":
+			roleEnvs = append(roleEnvs, "VERIF_C28_MODE=once-idle")
+		}
 		cmd := exec.Command(selfBin())
 		cmd.Env = childEnv(roleEnv+"=lock-contender",
 			"MUTAGEN_DATA_DIRECTORY="+filepath.Join(dir, "data"),
@@ -221,11 +266,12 @@ func runRound(r *vk.Run, idx, K, wantAcq, maxTry, kills int, rng *rand.Rand, hb 
 			fmt.Sprintf("VERIF_C28_SPAWN_PCT=%d", spawnPct),
 			"VERIF_C28_ORPHAN_MARK="+dir,
 			"GOMAXPROCS=2")
+		cmd.Env = append(cmd.Env, roleEnvs...)
 		if err := cmd.Start(); err != nil {
-			return
+			return nil
 		}
 		c.Pid = cmd.Process.Pid
-		l := &live{c, cmd}
+		l := &live{c, cmd, make(chan struct{})}
 		mu.Lock()
 		alive[id] = l
 		mu.Unlock()
@@ -237,7 +283,9 @@ func runRound(r *vk.Run, idx, K, wantAcq, maxTry, kills int, rng *rand.Rand, hb 
 			mu.Lock()
 			delete(alive, id)
 			mu.Unlock()
+			close(l.done)
 		}()
+		return l
 	}
 	for i := 0; i < K; i++ {
 		spawn()
@@ -311,6 +359,73 @@ func runRound(r *vk.Run, idx, K, wantAcq, maxTry, kills int, rng *rand.Rand, hb 
 		os.RemoveAll(dir)
 		return nil, false
 	}
+	// Epilogue, with nobody else left: a holder is killed and reaped, then a fresh process must
+	// be able to acquire. The attempts are judged by the general rules below.
+	if h := spawnRole("epilogue-holder", 1, 50); h != nil {
+		jp := filepath.Join(dir, "journals", fmt.Sprintf("%03d.log", h.c.ID))
+		for tries := 0; tries < 15000; tries++ { // workload scheduling, not a verdict
+			ev := lastJournalEvent(jp)
+			mu.Lock()
+			_, running := alive[h.c.ID]
+			mu.Unlock()
+			if ev == "ACQ" || !running {
+				break
+			}
+			time.Sleep(2 * time.Millisecond)
+		}
+		h.c.KillSent = monoNow()
+		h.cmd.Process.Kill()
+		wg.Wait() // reaped
+		spawnRole("epilogue-fresh", 1, 3)
+		wg.Wait()
+	}
+	// Second epilogue: while a holder holds, another process is refused once and then stays
+	// alive WITHOUT touching the lock again; the holder is killed (even rounds) or releases and
+	// exits (odd rounds); then a fresh process must be able to acquire although the refused
+	// process is still around.
+	waitEvent := func(l *live, want string) {
+		jp := filepath.Join(dir, "journals", fmt.Sprintf("%03d.log", l.c.ID))
+		for tries := 0; tries < 15000; tries++ { // workload scheduling, not a verdict
+			select {
+			case <-l.done:
+				return
+			default:
+			}
+			if lastJournalEvent(jp) == want {
+				return
+			}
+			time.Sleep(2 * time.Millisecond)
+		}
+	}
+	holderRole := "epilogue-holder"
+	if idx%2 == 1 {
+		holderRole = "epilogue-holder-releasing"
+	}
+	if h := spawnRole(holderRole, 1, 50); h != nil {
+		waitEvent(h, "ACQ")
+		idler := spawnRole("epilogue-idler", 1, 1)
+		if idler != nil {
+			waitEvent(idler, "IDLE")
+		}
+		if holderRole == "epilogue-holder" {
+			h.c.KillSent = monoNow()
+			h.cmd.Process.Kill()
+		}
+		<-h.done
+		if f := spawnRole("epilogue-fresh-beside-idler", 1, 3); f != nil {
+			<-f.done
+		}
+		if idler != nil {
+			select {
+			case <-idler.done:
+			default:
+				idler.c.KillSent = monoNow()
+				idler.cmd.Process.Kill()
+				<-idler.done
+			}
+		}
+		wg.Wait()
+	}
 	for _, c := range round.Contenders {
 		c.Events = readJournal(filepath.Join(dir, "journals", fmt.Sprintf("%03d.log", c.ID)))
 		for _, e := range c.Events {
@@ -376,9 +491,16 @@ func killRoundOrphans(r *vk.Run, mark string) {
 	r.Count("subprocesses_removed_at_round_end", int64(killed))
 }
 
+type live struct {
+	c    *contender
+	cmd  *exec.Cmd
+	done chan struct{} // closed once the process has been reaped
+}
+
 type attempt struct {
 	Proc, Pid, N           int // Pid: identity within the round (contender index + 1; OS pids may be reused)
 	OsPid                  int
+	Role                   string
 	Try, Acq, Fail         int64
 	RelC, RelR             int64
 	FailText, RelText      string
@@ -395,7 +517,7 @@ func attemptsOf(c *contender) []*attempt {
 	for _, e := range c.Events {
 		switch e.Ev {
 		case "TRY":
-			cur = &attempt{Proc: c.ID, Pid: c.ID + 1, OsPid: c.Pid, N: e.N, Try: e.TS}
+			cur = &attempt{Proc: c.ID, Pid: c.ID + 1, OsPid: c.Pid, Role: c.Role, N: e.N, Try: e.TS}
 			out = append(out, cur)
 		case "ACQ":
 			if cur != nil {
@@ -537,6 +659,8 @@ func c28() {
 		var ops []porcupine.Operation
 		died := map[int]bool{}
 		var orphanedAt []int64 // reap times of holders that died leaving a live subprocess behind
+		idles := idleIntervals(round)
+		r.Count("idle_periods_of_refused_processes", int64(len(idles)))
 		nAcq, nFail, nOtherErr := 0, 0, 0
 		for _, a := range atts {
 			totalTry++
@@ -547,17 +671,30 @@ func c28() {
 			in := lockIn{"acquire", a.Pid}
 			switch {
 			case a.HasFail:
-				if strings.Contains(a.FailText, "temporarily_unavailable") || strings.Contains(a.FailText, "permission_denied") {
-					nFail++
-					fails = append(fails, a)
-					ops = append(ops, porcupine.Operation{ClientId: a.Proc, Input: in, Call: a.Try, Output: "fail", Return: a.Fail})
-				} else {
+				// Every error of AcquireLock is a refusal, whatever its text: the property
+				// promises the lock to whoever asks while nobody holds it.
+				nFail++
+				fails = append(fails, a)
+				ops = append(ops, porcupine.Operation{ClientId: a.Proc, Input: in, Call: a.Try, Output: "fail", Return: a.Fail})
+				if !strings.Contains(a.FailText, "temporarily_unavailable") && !strings.Contains(a.FailText, "permission_denied") {
 					nOtherErr++
-					r.Count("acquire_other_errors", 1)
-					r.Note("acquire_other_error_example", a.FailText)
+					r.Count("refusals_with_another_error_text", 1)
+					r.Note("refusal_other_error_example", a.FailText)
 				}
 			case a.HasAcq:
 				nAcq++
+				switch a.Role {
+				case "epilogue-fresh":
+					r.Count("fresh_process_acquired_after_killed_holder_was_reaped", 1)
+				case "epilogue-fresh-beside-idler":
+					r.Count("fresh_process_acquired_while_a_refused_process_idles", 1)
+				case "epilogue-holder":
+					r.Count("epilogue_holders_killed_while_holding", 1)
+				case "epilogue-holder-releasing":
+					r.Count("epilogue_holders_released_and_exited", 1)
+				case "epilogue-idler":
+					r.Count("epilogue_idlers_that_acquired_instead_of_being_refused", 1)
+				}
 				ops = append(ops, porcupine.Operation{ClientId: a.Proc, Input: in, Call: a.Try, Output: "ok", Return: a.Acq})
 				switch {
 				case a.HasRelC:
@@ -688,6 +825,13 @@ func c28() {
 						// a subprocess of a dead holder is not a daemon: the lock must be free once the holder is gone
 						context = "dead-holder-left-subprocess"
 					}
+					if f.Role == "epilogue-fresh-beside-idler" {
+						context = "fresh-process-while-a-refused-process-idles"
+					} else if f.Role == "epilogue-fresh" {
+						context = "fresh-process-after-killed-holder-was-reaped"
+					} else if idleDuring(idles, f) > 0 {
+						context = "while-a-refused-process-idles"
+					}
 					r.Violation(map[string]string{"rule": "availability", "context": context}, fmt.Sprintf("process %d was refused the daemon lock during [%d,%d] although no other process could have held it then (%d holder(s) had been killed and reaped before, leaving a subprocess alive)", f.Pid, f.Try, f.Fail, orphans),
 						map[string]any{"round": ri, "refused": f, "dead_holders_with_live_subprocess_reaped_before": orphans})
 				}
@@ -735,6 +879,43 @@ func c28() {
 		fmt.Printf("ERROR: C28 observed too little: acquisitions=%d refusals=%d\n", totalAcq, totalFail)
 	}
 	r.Finish("one evaluation = one history of K contender processes looping over the real daemon.AcquireLock/Release on one data directory with seeded random kills (victims replaced); distinct = (K, acquisition bucket, refusal bucket, number of kills that hit a holder)", r.Pick(3, 5))
+}
+
+// idleIntervals lists the periods during which a refused contender stayed alive
+// without touching the lock (IDLE .. IDLEEND, or .. reaped if it was killed meanwhile).
+func idleIntervals(round *c28Round) []interval {
+	var out []interval
+	for _, c := range round.Contenders {
+		var open *interval
+		for _, e := range c.Events {
+			switch e.Ev {
+			case "IDLE":
+				open = &interval{Proc: c.ID, Pid: c.ID + 1, N: e.N, Start: e.TS, Kind: "idle"}
+			case "IDLEEND":
+				if open != nil {
+					open.End = e.TS
+					out = append(out, *open)
+					open = nil
+				}
+			}
+		}
+		if open != nil {
+			open.End = c.Reaped
+			out = append(out, *open)
+		}
+	}
+	return out
+}
+
+// idleDuring counts idle periods of OTHER processes that overlap the refusal f.
+func idleDuring(idles []interval, f *attempt) int {
+	n := 0
+	for _, iv := range idles {
+		if iv.Pid != f.Pid && iv.Start <= f.Fail && iv.End >= f.Try {
+			n++
+		}
+	}
+	return n
 }
 
 func countKind(iv []interval, kind string) int {
